@@ -91,8 +91,28 @@ let verdict case impl =
         "viol spec=" ^ show_items (spec_stream (script_pages script)) ^ " " ^ show_keys (spec_requests m script)
       else "diff model=" ^ model_string m script
     end else begin
-      let model_ctor_failed = match snd (seq_run m script) with OFail _ -> true | _ -> false in
-      if accept_full m script oi ok && ctor_failed = model_ctor_failed then "ok"   (* C07_accept_full_sound *)
+      let ctor_fails sc = match snd (seq_run m sc) with OFail _ -> true | _ -> false in
+      let accepts sc = accept_full m sc oi ok && ctor_failed = ctor_fails sc in
+      (* Cases with a scripted client-side timeout (T) run under a wall-clock bound.  When the
+         machine stalls, the timeout may strike an EARLIER attempt than the scripted one.  That is
+         the same model run on the script with the T moved forward; try those scripts too (only
+         if the observation ends in the timeout error). *)
+      let ends_in_timeout =
+        List.exists (fun i -> i = IErr e_timeout) oi in
+      let has_t = List.exists (fun ps -> List.mem FTimeout ps.ps_faults) script in
+      let rec take k l = if k = 0 then [] else match l with [] -> [] | x :: r -> x :: take (k - 1) r in
+      let earlier_timeouts () =
+        let rec go pre = function
+          | [] -> false
+          | ps :: rest ->
+            let n = List.length ps.ps_faults in
+            let here = List.exists (fun i ->
+                accepts (List.rev_append pre ({ ps with ps_faults = take i ps.ps_faults @ [FTimeout] } :: rest)))
+                (List.init (n + 1) (fun i -> i)) in
+            here || (if List.mem FTimeout ps.ps_faults then false else go (ps :: pre) rest) in
+        go [] script in
+      if accepts script then "ok"   (* C07_accept_full_sound *)
+      else if has_t && ends_in_timeout && earlier_timeouts () then "ok early-timeout"
       else if not (prop_full_ok m script oi ok) then
         (match fail_point m script with
          | Some (k, e) when not (good_script m script) ->
